@@ -259,7 +259,10 @@ class Ctx:
                     if not S._truth(cond):
                         raise Reject()
                     return
-                S.assume_sign(cond.a, S._OPSETS[cond.b])
+                if cond.a.count_ops() > 40 or sum(1 for t_ in sp.Add.make_args(cond.a) if sp.fraction(t_)[1] != 1) > 3:
+                    self.path.hyps.append(cond)       # large expression: kept as an (unexpanded) hypothesis
+                else:
+                    S.assume_sign(cond.a, S._OPSETS[cond.b])
             elif cond.k == 'and':
                 self.require(cond.a)
                 self.require(cond.b)
@@ -626,6 +629,17 @@ def discharge(path, kind, payload, timeout_ms):
             how = []
             allok = True
             for part in parts:
+                # fast path: substitute r**2 -> radicand and let identical terms cancel (no common denominator)
+                try:
+                    q = part
+                    for key_, (r_, e_) in path.sqrt_atoms.items():
+                        if q.has(r_):
+                            q = q.subs(r_ ** 2, e_)
+                    if q == 0 or sp.expand(q) == 0:
+                        how.append('atom-rewriting')
+                        continue
+                except Exception:
+                    pass
                 try:
                     with P.time_limit(20):
                         red = P.atom_reduce(path, part)
@@ -838,8 +852,31 @@ def _install_concolic(path, env, ctx):
                 ctx.near_zero = True
             return frozenset((S.ZERO,))
         return frozenset((S.POS,)) if v > 0 else frozenset((S.NEG,))
+    def concolic_sign(e):
+        _atom_values(path, env)
+        try:
+            v = num_eval(e, env)
+        except KeyError:
+            return S.ZERO
+        if isinstance(v, complex):
+            v = v.real
+        if v != v:
+            return S.ZERO
+        mag = 1.0
+        try:
+            terms = sp.Add.make_args(e)
+            if len(terms) > 1:
+                mag = max(1.0, max(abs(complex(num_eval(t, env))) for t in terms[:40]))
+        except Exception:
+            pass
+        if abs(v) <= 1e-9 * mag:
+            if abs(v) > 0:
+                ctx.near_zero = True
+            return S.ZERO
+        return S.POS if v > 0 else S.NEG
     path.sign_set = sign_set
     path.choose = choose
+    path.concolic_sign = concolic_sign
 
 
 # ------------------------------------------------------------------------------------------
